@@ -1,8 +1,8 @@
 """C17 A PDU failing its integrity check is never acknowledged as delivered."""
 from .lib.match import *
 
-UNITS = lambda u: u in ('w_inst_ll',) or u.startswith('t_link_layer')
-SELECT = r'^bluetoe::link_layer::ll_data_pdu_buffer::'
+UNITS = lambda u: u in ('w_inst_ll',) or u.startswith('t_link_layer') or u.startswith('nrf_')
+SELECT = r'^bluetoe::link_layer::ll_data_pdu_buffer::|::radio_interrupt_handler$|^bluetoe::nrf52_details::'
 BUF = 'bluetoe::link_layer::ll_data_pdu_buffer::'
 META = {
     'level': 'who-may-write rule over every function of ll_data_pdu_buffer (pattern and all instantiations): the next expected sequence number '
@@ -40,3 +40,26 @@ def run(chk, facts, tier):
             continue
         bad = [c for c in fn.body.calls() if c.cn in ('push_front', 'increment_receive_packet_counter')]
         chk.instance('mic-path-no-delivery', fn, 'acknowledge(read_buffer)', not bad, '' if not bad else 'MIC-failure path calls %s' % bad[0].cn, key='acknowledge(read_buffer)')
+
+    # nRF52 radio ISR: which buffer function sees which receive outcome
+    chk.rule('isr-dispatch', 'nRF52 radio ISR: received() only for valid CRC and valid MIC and a real receive buffer; acknowledge(buffer) only for valid CRC with invalid MIC; otherwise next_transmit() (nothing acknowledged)', floor=2)
+    for fn in facts.functions:
+        if fn.name != 'radio_interrupt_handler' or not fn._cfg:
+            continue
+        for c in fn.body.calls('received'):
+            if not (c.args() and is_name(c.args()[0], 'receive_buffer_')):
+                continue
+            ats = guard_atoms(fn, c)
+            crc = has_atom(ats, lambda n: is_name(n, 'valid_crc'), {'!='}, lambda o: cval(o) == 0)
+            pdu = has_atom(ats, lambda n: is_name(n, 'valid_pdu'), {'!='}, lambda o: cval(o) == 0)
+            buf = any(op == '!=' and not isinstance(r, int) and mentions(l, 'receive_buffer_') and mentions(r, 'empty_receive_') for l, op, r in ats)
+            ok = crc and pdu and buf
+            chk.instance('isr-dispatch', fn, 'received(receive_buffer_)', ok, '' if ok else 'guards: crc=%s mic=%s real buffer=%s' % (crc, pdu, buf), node=c, key='isr received')
+        for c in fn.body.calls('acknowledge'):
+            if not (c.args() and is_name(c.args()[0], 'receive_buffer_')):
+                continue
+            ats = guard_atoms(fn, c)
+            crc = has_atom(ats, lambda n: is_name(n, 'valid_crc'), {'!='}, lambda o: cval(o) == 0)
+            pdu = has_atom(ats, lambda n: is_name(n, 'valid_pdu'), {'=='}, lambda o: cval(o) == 0)
+            ok = crc and pdu
+            chk.instance('isr-dispatch', fn, 'acknowledge(receive_buffer_)', ok, '' if ok else 'guards: crc=%s mic-invalid=%s' % (crc, pdu), node=c, key='isr acknowledge')
